@@ -55,6 +55,11 @@ def C01(ctx):
     R.c04_r1(ctx, f)
     R.c08_r1(ctx, f, rid="C01.R3")
     E.c02_r2(ctx, f)
+    T.c03_t1(ctx, f)
+    T.c03_t2(ctx, f)
+    T.c03_t3(ctx, f)
+    T.c09_t1(ctx, f)
+    T.c09_t2(ctx, f)
     x("c02_r3", ctx, f)
     x("c01_r4", ctx, f)
     return dict(
